@@ -2002,7 +2002,9 @@ class InterCHKRevisionTree(InterInventoryTree):
                 if entry.file_id not in changed_file_ids:
                     yield InventoryTreeChange(
                         entry.file_id,
-                        (relpath, relpath),  # Not renamed
+                        # The entry itself is unchanged, but it may sit
+                        # below a renamed directory.
+                        (self.source.id2path(entry.file_id), relpath),
                         False,  # Not modified
                         (True, True),  # Still  versioned
                         (entry.parent_id, entry.parent_id),
